@@ -436,7 +436,24 @@ func value(r *rng.R, s *spec.Spec) any {
 var DerivedList func(level int, vals ...any) at.List
 var DerivedObject func(level int, pairs ...any) at.Object
 
+// Churn makes and drops a few thousand unrelated values (distinct short strings, numbers, small containers): whatever
+// the library shares, interns or remembers across values has turned over afterwards.
+func Churn(n int) {
+	l := at.NewList()
+	o := at.NewObject()
+	for j := 0; j < n; j++ {
+		l.Add("c"+strconv.Itoa(j), j, float64(j)+0.25)
+		o.Set("k"+strconv.Itoa(j%512), "v"+strconv.Itoa(j))
+		if j%2048 == 2047 {
+			l, o = at.NewList(), at.NewObject()
+		}
+	}
+}
+
 func Build(r *rng.R, s *spec.Spec) any {
+	if r != nil && r.Chance(1, 120) {
+		Churn(6000) // now and then a lot happens before a container is built
+	}
 	if r != nil && DerivedList != nil && DerivedObject != nil && r.Chance(1, 20) {
 		switch s.K {
 		case spec.List:
